@@ -45,7 +45,9 @@ MANIFEST = {
 # statement model.  A statement is a tuple; ("def", name, variant) etc.  Blocks: ("block", kind, arms) with arms = tuple of stmt tuples per arm.
 
 DEF_VARIANTS = ["plain", "doc", "async", "cached", "unknown-deco", "async-cached"]
-CLASS_DEF_VARIANTS = ["plain", "doc", "staticmethod", "classmethod", "property", "async", "async-classmethod"]
+CLASS_DEF_VARIANTS = ["plain", "doc", "staticmethod", "classmethod", "property", "async", "async-classmethod",
+                      # a property completed by a setter that carries another decorator ABOVE `@<name>.setter`: still the same property
+                      "property-setter"]
 ASSIGN_VARIANTS = ["assign", "assign-doc", "annassign", "annonly"]
 IMPORT_FORMS = ["import n", "import n.x", "import x.y as n", "from m import n", "from m import x as n"]
 ALL_FORMS = ['__all__ = ["a"]', '__all__ = ["a", "b"]', '__all__ += ["b"]']
@@ -208,7 +210,7 @@ def render_stmt(r: R, s, ind, ctx, scope):
             r.emit(head, ind)
             l1, l2 = r.emit("self.a = 1", ind + 1)
             init_events.append({"op": "bind", "name": "a", "kind": "attribute", "lineno": l1, "endlineno": l2, "cond": None, "guard": ctx["guard"], "labels": {"instance-attribute"}, "instance": True})
-            l1, l2 = r.emit("self.z.y = 2", ind + 1)
+            l1, l2 = r.emit("self.z.b = 2", ind + 1)  # (an attribute of an attribute of self: binds nothing on the class)
         elif v == "init-cond":
             r.emit(head, ind)
             r.emit("if self:", ind + 1)
@@ -221,6 +223,16 @@ def render_stmt(r: R, s, ind, ctx, scope):
             r.emit(head, ind)
             l1, l2 = r.emit("self.b: int = 1", ind + 1)
             init_events.append({"op": "bind", "name": "b", "kind": "attribute", "lineno": l1, "endlineno": l2, "cond": None, "guard": ctx["guard"], "labels": {"instance-attribute"}, "instance": True, "annotation": "int"})
+        elif v == "property-setter":
+            r.emit("@property", ind)
+            r.emit(head + " ...", ind)
+            last_getter = len(r.lines)
+            r.emit("@some.decorator", ind)
+            r.emit(f"@{n}.setter", ind)
+            r.emit(f"def {n}(self, value): ...", ind)
+            ev.append({"op": "bind", "name": n, "kind": "attribute", "lineno": first, "endlineno": last_getter, "cond": None, "guard": ctx["guard"], "labels": {"property", "writable"}, "doc": None,
+                       "src_first": first, "is_def": True})
+            return ev
         else:
             r.emit(head + " ...", ind)
         last = len(r.lines)
